@@ -1280,3 +1280,29 @@ Proof.
     by (destruct e; try congruence; reflexivity).
   apply proxy_meets_oracle. exact Hwf.
 Qed.
+
+(* ---- the pass-through proxy is selected by the exact spelling only ---- *)
+Lemma enc_of_noop_iff name coll : enc_of name coll = EncNoop <-> name = "no-op".
+Proof.
+  unfold enc_of. destruct (str_eqb name "no-op") eqn:E.
+  - apply str_eqb_eq in E. tauto.
+  - apply str_eqb_neq in E. split; [|tauto].
+    destruct (str_eqb (lower name) "no-op"); [discriminate|].
+    destruct (str_eqb (lower name) "safejson"); [discriminate|].
+    destruct (str_eqb (lower name) "string"); discriminate.
+Qed.
+
+Lemma other_spelling_classified name coll m r parsed :
+  name <> "no-op" -> ok_status (r_code r) = false ->
+  http_proxy_outcome_enc (enc_of name coll) m r parsed =
+  match m with
+  | MDefault => (None, EInvalidStatus)
+  | MErrorCode => (None, ECode (r_code r) (r_body r) (r_enc r))
+  | MDetails n =>
+      (Some {| p_data := [(("error_" ++ n)%string, error_object (r_code r) (r_body r) (r_enc r))];
+               p_complete := false; p_status := r_code r |}, ENone)
+  end.
+Proof.
+  intros Hn Hok. apply enc_other_status_fails; [|exact Hok].
+  intros E. apply enc_of_noop_iff in E. contradiction.
+Qed.
